@@ -371,7 +371,7 @@ impl<T, L: Lock> SharedObservable<T, L> {
     /// on that.
     #[must_use]
     pub fn subscriber_count(&self) -> usize {
-        self.strong_count() - self.observable_count()
+        (Arc::strong_count(&self.state) - self.observable_count()) / L::SUBSCRIBER_REFS
     }
 
     /// Get the number of strong references to the inner value.
@@ -387,7 +387,7 @@ impl<T, L: Lock> SharedObservable<T, L> {
     /// function, before you look at its result or do anything based on that.
     #[must_use]
     pub fn strong_count(&self) -> usize {
-        Arc::strong_count(&self.state)
+        self.observable_count() + self.subscriber_count()
     }
 
     /// Get the number of weak references to the inner value.
